@@ -20,8 +20,11 @@ RULE = ("a case is one history (script, peers, schedule) of one particle, brough
         "fixed histories of corpus/C05 (stream fold cursor hole of DESIGN 7-11; the par left-window slider defect fixed in /repo) are always included; distinct = distinct (script, schedule) with at least one "
         "service invocation")
 PARTIAL = [
-    "C05_full (history level: no call instance is issued twice) is NOT proved: it needs the network invariant (approximation invariant of "
-    "DESIGN section 6); it is covered by the history oracle only.  Proved are the local facts: C05_not_rerequested_partial, "
+    "C05_full (history level: no call instance is issued twice) is proved ONLY for straight-line scripts on several peers (call with literal target/service/function and literal or plain-scalar arguments, ap of a literal or scalar, seq, xor, match, mismatch, fail, null, never; model/NetLin.v): "
+    "C05_linear_at_most_once -- in every honest history the service invocations are a prefix of the calls of the sequential reading, in "
+    "its order (each at most once, with its arguments), and a request is pending only for the next call, alone, at its addressed peer "
+    "(the approximation invariant of DESIGN appendix B for that fragment); for par, folds, new, lenses, streams and variable targets "
+    "C05_full stays a Definition covered by the history oracle only.  Proved for all scripts are the local facts: C05_not_rerequested_partial, "
     "C05_recorded_partial, C05_pending_kept_partial, C05_request_recorded_partial, C05_meet_keeps_result, C05_exec_frame_partial",
     "known genuine defect (DESIGN 7-11, also C13/C09): a value appended inside a stream fold can land below the fold cursor; the executed "
     "call of that iteration disappears from the peer's own data (known finding stream-fold-cursor-hole-loses-call)",
